@@ -24,12 +24,19 @@ Rows(d) == [i \in 1..NTracts(d) |-> <<d, i>>]
 Modes == {"w", "a"}
 Op(name, mode, d) == [name |-> name, mode |-> mode, d |-> d]
 
-VARIABLES exists, rows, writer, ret, hist
+VARIABLES exists, rows, writer, ret, hist,
+          uid,      \* the writer's UID counter (-1: no UIDs requested)
+          uids      \* per row of the file: <<number, index, total>> of its UID, <<0, 0, 0>> for rows without one
 \* writer: "none" | "open" | "closed"
-vars == <<exists, rows, writer, ret, hist>>
+vars == <<exists, rows, writer, ret, hist, uid, uids>>
+NoUid == <<0, 0, 0>>
+\* UIDs of the rows one write() call adds: '0027.a-d' = <<27, 1, 4>>, '0027.b-d' = <<27, 2, 4>>, ...
+UidRows(u, d) == [i \in 1..NTracts(d) |-> IF u < 0 THEN NoUid ELSE <<u, i, NTracts(d)>>]
+Blank(n) == [i \in 1..n |-> NoUid]
 Init == /\ exists \in BOOLEAN
         /\ rows = IF exists THEN <<H, <<2, 1>>>> ELSE <<>>
-        /\ writer = "none" /\ ret = [kind |-> "none", n |-> 0]
+        /\ writer = "none" /\ ret = [kind |-> "none", n |-> 0] /\ uid = -1
+        /\ uids = IF exists THEN Blank(2) ELSE <<>>
         /\ hist = <<Op("start", IF exists THEN "exists" ELSE "absent", 0)>>
 Step(op) == Len(hist) <= MaxOps /\ hist' = Append(hist, op)
 None == [kind |-> "none", n |-> 0]
@@ -39,23 +46,28 @@ Csv == \E m \in Modes : \E d \in Descs :
          /\ rows' = (IF m = "w" THEN <<H>> \o Rows(d)
                      ELSE IF exists /\ Fault # "append_always_header" THEN rows \o Rows(d)
                      ELSE rows \o <<H>> \o Rows(d))
-         /\ exists' = TRUE /\ ret' = None /\ Step(Op("csv", m, d)) /\ UNCHANGED writer
-WInit == \E m \in Modes :
+         /\ uids' = Blank(Len(rows'))
+         /\ exists' = TRUE /\ ret' = None /\ Step(Op("csv", m, d)) /\ UNCHANGED <<writer, uid>>
+WInit == \E m \in Modes : \E u \in {-1, 27} :
            /\ writer = "none"
            /\ rows' = (IF m = "w" THEN <<H>>
                        ELSE IF exists /\ Fault # "header_after_open" THEN rows
                        ELSE IF exists THEN rows       \* (fault: decision taken after the file was created)
                        ELSE IF Fault = "header_after_open" THEN <<>> ELSE <<H>>)
-           /\ exists' = TRUE /\ writer' = "open" /\ ret' = None /\ Step(Op("winit", m, 0))
+           /\ uids' = (IF m = "w" \/ ~exists THEN Blank(Len(rows')) ELSE uids)
+           /\ uid' = u
+           /\ exists' = TRUE /\ writer' = "open" /\ ret' = None /\ Step(Op("winit", m, IF u < 0 THEN 0 ELSE u))
 WWrite == \E d \in Descs \cup {0} :          \* 0 = None
             /\ writer \in {"open", "closed"}
             /\ IF writer = "closed"
-               THEN /\ ret' = [kind |-> "RuntimeError", n |-> 0] /\ UNCHANGED rows
+               THEN /\ ret' = [kind |-> "RuntimeError", n |-> 0] /\ UNCHANGED <<rows, uid, uids>>
                ELSE /\ rows' = IF d = 0 THEN rows ELSE rows \o Rows(d)
+                    /\ uids' = IF d = 0 THEN uids ELSE uids \o UidRows(uid, d)
+                    /\ uid' = IF uid < 0 THEN uid ELSE IF Fault = "uid_not_advanced" THEN uid ELSE uid + 1
                     /\ ret' = [kind |-> "count", n |-> IF d = 0 THEN 0 ELSE NTracts(d)]
             /\ Step(Op("wwrite", "-", d)) /\ UNCHANGED <<exists, writer>>
-WClose == writer = "open" /\ writer' = "closed" /\ ret' = None /\ Step(Op("wclose", "-", 0)) /\ UNCHANGED <<exists, rows>>
-WOpen == writer = "closed" /\ writer' = "open" /\ ret' = None /\ Step(Op("wopen", "-", 0)) /\ UNCHANGED <<exists, rows>>
+WClose == writer = "open" /\ writer' = "closed" /\ ret' = None /\ Step(Op("wclose", "-", 0)) /\ UNCHANGED <<exists, rows, uid, uids>>
+WOpen == writer = "closed" /\ writer' = "open" /\ ret' = None /\ Step(Op("wopen", "-", 0)) /\ UNCHANGED <<exists, rows, uid, uids>>
 Next == Csv \/ WInit \/ WWrite \/ WClose \/ WOpen
 Spec == Init /\ [][Next]_vars
 
@@ -74,6 +86,12 @@ LastCallRows ==
      /\ SubSeq(rows, Len(rows) - NTracts(op.d) + 1, Len(rows)) = Rows(op.d)
 \* closing and re-opening never loses or adds rows
 ReopenKeepsRows == [][ (hist' # hist /\ hist'[Len(hist')].name \in {"wclose", "wopen"}) => rows' = rows ]_vars
+
+\* UIDs: one number per write() call (also for write(None)), indexes 1..total within the call, never reused
+UidsParallel == Len(uids) = Len(rows)
+UidNumbersDistinctPerCall ==
+  \A a, b \in 1..Len(uids) : (a < b /\ uids[a] # NoUid /\ uids[b] # NoUid /\ uids[a][1] = uids[b][1])
+                               => (uids[a][3] = uids[b][3] /\ uids[a][2] < uids[b][2])
 
 EmitCase == (EmitCases /\ Len(hist) = MaxOps + 1) => PrintT(<<"CASE", ToJson([ops |-> hist])>>)
 =============================================================================
